@@ -388,6 +388,66 @@ func runC12(env *Env, data map[string]any) *Outcome {
 			fail("print --with-totals: record totals do not add up to `klog total`", pw.Stdout, tot.Stdout)
 		}
 	}
+	// ---- with a filter (and --now): the report evaluates exactly what `klog total` evaluates ----
+	if len(recs) > 0 {
+		pick := recs[len(text)%len(recs)].d
+		ds := fmt.Sprintf("%04d-%02d-%02d", pick.y, pick.m, pick.d)
+		filters := [][]string{{"--entry-type", "open-range"}, {"--entry-type", "range"}, {"--entry-type", "duration"}, {"--since", ds}, {"--until", ds},
+			{"--date", ds}, {"--tag", "tag"}, {"--entry-type", "open-range", "--since", ds}, {"--until", ds, "--tag", "a"}}
+		flt := filters[(len(text)/3)%len(filters)]
+		for _, withNow := range []bool{false, true} {
+			extra := append([]string{}, flt...)
+			if withNow {
+				extra = append(extra, "--now")
+			}
+			ft := runCLI(env, opts, append(append([]string{"total", "--diff", "--decimal", "--no-style", "--no-warn"}, extra...), file)...)
+			fr := runCLI(env, opts, append(append([]string{"report", "--aggregate", kind, "--diff", "--decimal", "--no-style", "--no-warn"}, extra...), file)...)
+			evals += 2
+			what := "`" + strings.Join(extra, " ") + "`"
+			if ft.Panic != "" || fr.Panic != "" {
+				o.Findings = append(o.Findings, Finding{Kind: "D", What: "klog total/report " + what + " crashes: " + ft.Panic + fr.Panic, Signature: crashSignature("C12", ft.Panic+fr.Panic, data)})
+				break
+			}
+			if (ft.Code == 0) != (fr.Code == 0) {
+				fail("with "+what+" one of `klog total` and `klog report` fails and the other does not", fmt.Sprintf("report exit %d: %s%s", fr.Code, fr.Stdout, fr.Err), fmt.Sprintf("total exit %d: %s%s", ft.Code, ft.Stdout, ft.Err))
+				break
+			}
+			if ft.Code != 0 {
+				o.Tags = append(o.Tags, "filtered:refused")
+				continue
+			}
+			g := map[string]int{}
+			for _, m := range reTotalLine.FindAllStringSubmatch(ft.Stdout, -1) {
+				v, _ := strconv.Atoi(m[2])
+				g[m[1]] = v
+			}
+			if strings.TrimSpace(fr.Stdout) == "" {
+				if g["Total"] != 0 || g["Should"] != 0 {
+					fail("with "+what+" the report is empty but `klog total` is not zero", fr.Stdout, ft.Stdout)
+					break
+				}
+				continue
+			}
+			rows, footer, ok := parseTable(fr.Stdout)
+			if !ok || len(footer) != 3 {
+				fail("report "+what+" is not a table with Total/Should/Diff columns", fr.Stdout, "")
+				break
+			}
+			rt, _ := cellInt(footer[0])
+			rsh, _ := cellInt(footer[1])
+			sumT := 0
+			for _, c := range rows {
+				if t, ok := cellInt(c[0]); ok {
+					sumT += t
+				}
+			}
+			if rt != g["Total"] || rsh != g["Should"] || sumT != rt {
+				fail("with "+what+" the report's rows / grand total differ from `klog total`", fr.Stdout, ft.Stdout)
+				break
+			}
+			o.Tags = append(o.Tags, "filtered:equal")
+		}
+	}
 	o.Evals = evals
 	o.Sample = map[string]any{"aggregate": kind, "fill": fill, "rows": implRows, "total": grand["Total"]}
 	return o
